@@ -205,7 +205,7 @@ def main(tier):
             'functions\' own argument log compared before/after; plus vard vs the program\'s {:?} output and final output vs native; '
             'distinct = distinct (position, function)')
     V = Verdict('C16', tier, rule)
-    V.minima = {'calls_ok': 30, 'failing_calls': 10, 'outputs_compared': 3} if tier == 'quick' else {'calls_ok': 2500, 'failing_calls': 2500, 'outputs_compared': 150}
+    V.minima = {'calls_ok': 30, 'failing_calls': 10, 'outputs_compared': 3} if tier == 'quick' else {'calls_ok': 1200, 'failing_calls': 1200, 'outputs_compared': 150}
     V.assumptions = ['PTRACE_GETREGS / GETFPREGS / /proc/pid/maps read by the monitor are the truth; arguments are observed through the log the functions write']
     cfgs = [dict(tc='1.89', opt=0), dict(tc='1.95', opt=0)]
     n = 6 if tier == 'quick' else 200
